@@ -57,9 +57,37 @@ def slow_recipient(rng):
     return {'cfg': cfg, 'rounds': rounds}
 
 
+def fire_and_forget(rng):
+    """a sender that writes a burst (more than the bus reads at once), including things the bus answers, and closes at
+    once without reading: everything it wrote is still dispatched, in order"""
+    rounds = [{'ops': {'1': [{'k': 'connect', 'uid': 0}, {'k': 'hello'}, {'k': 'req', 'n': 'com.example.A', 'f': 0}]}},
+              {'ops': {'2': [{'k': 'connect', 'uid': 0}, {'k': 'hello'}, {'k': 'addmatch', 'rule': NOC}]}}]
+    for _ in range(rng.choice([2, 3])):
+        rounds.append({'ops': {'3': [{'k': 'connect', 'uid': 0}, {'k': 'hello'}]}})
+        ops = []
+        n = rng.choice([12, 40, 120])
+        pad = 'x' * rng.choice([8, 200, 600])
+        for j in range(n):
+            r = rng.random()
+            if r < 0.1:
+                ops.append({'k': 'query', 'q': rng.choice(['list', 'owner']), 'n': 'com.example.A'})
+            elif r < 0.15:
+                ops.append({'k': 'send', 'ty': 1, 'dst': 'com.example.Nobody', 'path': '/a', 'ifc': 'com.example.I', 'mem': 'Ma',
+                            'sig': 'u', 'body': [j], 'ser': 2000 + j, 'fl': 2})
+            else:
+                ops.append({'k': 'send', 'ty': rng.choice([1, 4]), 'dst': rng.choice(['com.example.A', {'slot': 1}, {'slot': 2}]),
+                            'path': '/a', 'ifc': 'com.example.I', 'mem': 'Mb', 'sig': 'us', 'body': [j, pad], 'ser': 2000 + j, 'fl': 1})
+        ops.append({'k': 'aclose'})
+        rounds.append({'ops': {'3': ops}})
+        rounds.append({'ops': {'1': [{'k': 'query', 'q': 'list'}]}})
+    return {'cfg': {}, 'rounds': rounds}
+
+
 def gen(rng, i):
-    if i % 6 == 5:
+    if i % 6 in (1, 5):
         return slow_recipient(rng)
+    if i % 6 == 2:
+        return fire_and_forget(rng)
     g = gen_bus.Gen(rng, nslots=3, nnames=2, w=W, eavesdrop=0.2 if i % 4 == 0 else 0.0)
     return g.scenario(nrounds=rng.choice([10, 14]), concurrency=0.55, burst=0.4)
 
